@@ -40,6 +40,18 @@ fn forward<const SEL: usize>() {
     let mut last_sel: Option<usize> = if kani::any() { Some(kani::any::<usize>() % 3) } else { None };
     let mut tracker = SequenceTracker::new();
     let (buf, n, seq) = packet();
+    // any earlier routing of this slot (seed C05c): the same number carried by ANOTHER uplink (a retransmission
+    // now re-routed), a colliding older number, or nothing - written through the real insert at any earlier time
+    let prior: u8 = kani::any();
+    if let Some(s) = seq {
+        let earlier = any_time();
+        kani::assume(earlier <= now);
+        match prior % 3 {
+            0 => {}
+            1 => tracker.insert(s, conns[1 - SEL].conn_id, earlier),
+            _ => tracker.insert(s ^ (srtla_send::sender::SEQ_TRACKING_SIZE as u32), kani::any(), earlier),
+        }
+    }
     let q0: [i32; N] = core::array::from_fn(|i| conns[i].batch_sender.queued_count());
     let f0: [i32; N] = core::array::from_fn(|i| conns[i].in_flight_packets);
     let w0: [i32; N] = core::array::from_fn(|i| conns[i].window);
@@ -58,6 +70,8 @@ fn forward<const SEL: usize>() {
         assert!(tracker.get(s, now) == Some(conns[SEL].conn_id), "C05: the tracker remembers the carrier of the unique copy");
     }
     kani::cover!(seq.is_some() && last_sel == Some(SEL), "data packet forwarded");
+    kani::cover!(seq.is_some() && prior % 3 == 1, "re-routed retransmission: the record moves to the new carrier");
+    kani::cover!(seq.is_some() && prior % 3 == 2, "colliding older number displaced");
     kani::cover!(seq.is_none(), "control packet forwarded");
     core::mem::forget(conns);
     core::mem::forget(tracker);
